@@ -2,6 +2,9 @@ package main
 
 import (
 	"fmt"
+	"go/ast"
+	"go/token"
+	"go/types"
 	"regexp"
 	"strings"
 )
@@ -115,7 +118,7 @@ func (w *c08Walker) exprs(n Node, rhs string, lhs string, f *c08Facts) {
 	}
 	if m := sliceToRx.FindStringSubmatch(rhs); m != nil {
 		base, hi := m[1], m[2]
-		if constOpRx.MatchString(hi) || strings.HasPrefix(hi, "L") && strings.Contains(hi, "backupIndex") {
+		if constOpRx.MatchString(hi) {
 			return
 		}
 		ok := f.lenGE[base+"|"+hi] != "" || f.capGE[base+"|"+hi] || f.counted[hi]
@@ -170,6 +173,9 @@ func (w *c08Walker) block(b Block, f *c08Facts) {
 				rhs := ""
 				if j < len(n.RHS) {
 					rhs = n.RHS[j]
+				}
+				if m := regexp.MustCompile(`^len\((\w[\w.:]*)\)$`).FindStringSubmatch(rhs); m != nil {
+					f.lenGE[m[1]+"|"+l] = "remembered length" // x[:l] with l := len(x) only shrinks back
 				}
 				if rhs == "#0" && (n.Tok.String() == ":=" || n.Tok.String() == "=") {
 					f.zero[l] = true
@@ -346,6 +352,35 @@ func checkC08(c *Check) {
 			w.block(g.ir(fi).Body, f)
 		}
 	})
+	// the bound itself: CheckLengthSanity compares in 64 bits (count*minSize in uint32 wraps at 2^32 and lets huge counts through)
+	for _, b := range loadBasictl(c) {
+		fi := b.byName["CheckLengthSanity"]
+		if fi == nil {
+			if b.pkg == "pkg/basictl" {
+				c.Undecided("reader/length-sanity-is-overflow-safe", b.pkg, "", "CheckLengthSanity not found")
+			}
+			continue
+		}
+		muls, ok64 := 0, true
+		detail := ""
+		ast.Inspect(fi.Decl.Body, func(n ast.Node) bool {
+			be, ok := n.(*ast.BinaryExpr)
+			if !ok || be.Op != token.MUL {
+				return true
+			}
+			muls++
+			tv := fi.Pkg.TypesInfo.Types[be]
+			bt, isB := tv.Type.Underlying().(*types.Basic)
+			if !isB || (bt.Kind() != types.Uint64 && bt.Kind() != types.Int64) {
+				ok64 = false
+			}
+			detail += types.ExprString(be) + " has type " + tv.Type.String() + "; "
+			return true
+		})
+		irt := irText(b.ir("CheckLengthSanity"))
+		shape := strings.HasPrefix(irt, "if (len(buf) < (val * val2))\n") && strings.Contains(irt, "io.ErrUnexpectedEOF")
+		c.Ob("reader/length-sanity-is-overflow-safe", b.pkg+".CheckLengthSanity", muls == 1 && ok64 && shape, b.pos("CheckLengthSanity"), "rejects when len(r) < count*minSize with the product computed in 64 bits: "+detail)
+	}
 	c.Set("reader_functions", fns)
 	c.Floor("reader/allocation-bounded-by-input", 40)
 	c.Floor("reader/slice-bound-established", 150)
